@@ -188,6 +188,19 @@ pub struct NetState {
     pub hung: bool,
 }
 
+thread_local! {
+    /// (socket operations, consecutive receive timeouts) after which one query counts as not returning
+    static HORIZON: std::cell::Cell<(usize, usize)> = const { std::cell::Cell::new((8192, 64)) };
+}
+
+/// Runs `f` with a wider horizon (for settings that legitimately ask for many attempts).
+pub fn with_horizon<T>(ops: usize, timeouts: usize, f: impl FnOnce() -> T) -> T {
+    let old = HORIZON.with(|h| h.replace((ops, timeouts)));
+    let out = f();
+    HORIZON.with(|h| h.set(old));
+    out
+}
+
 /// Handle shared between the harness (to read the log afterwards) and the
 /// boxed `VirtualNet` installed in the library.
 #[derive(Clone)]
@@ -206,8 +219,8 @@ impl Net {
             send_count: 0,
             ops: 0,
             consecutive_timeouts: 0,
-            max_ops: 8192,
-            max_consecutive_timeouts: 64,
+            max_ops: HORIZON.with(|h| h.get().0),
+            max_consecutive_timeouts: HORIZON.with(|h| h.get().1),
             hung: false,
         })))
     }
